@@ -61,13 +61,24 @@ def generate(seed, tier, index):
             # iteration-granular gap: the next burst is routed exactly k loop iterations later, i.e. possibly between
             # a drain completing, a lock being released and the next queued sender resuming
             steps.append({"op": "iters", "k": rng.randint(1, 8)})
+    big = rng.random() < 0.12  # one update carries a value far above any chunking size a transport might use (64 KiB ...)
+    if big:
+        k = rng.randrange(len(steps))
+        while steps[k]["op"] != "burst":
+            k = (k + 1) % len(steps)
+        steps[k]["big_at"] = rng.randrange(steps[k]["n"])
+        steps[k]["big_len"] = rng.choice([70000, 140000, 200000])
     ntcp = rng.randint(1, 3)
     tty = rng.random() < 0.6
     targets = [f"tcp{i}" for i in range(ntcp)] + (["tty"] if tty else [])
     stall = rng.choice([None, None] + targets)
-    return {"world": world, "steps": steps, "ntcp": ntcp, "tty": tty, "stall": stall,
+    if big:
+        frag_choices = ["whole", "coalesce", "fixed:1024"]
+    else:
+        frag_choices = ["whole", "fixed:1", "fixed:7", "random", "coalesce"]
+    return {"world": world, "steps": steps, "ntcp": ntcp, "tty": tty, "stall": stall, "frag_choices": frag_choices,
             "pool": {"workers": rng.randint(2, 6), "jitter": rng.choice(["none", "small", "small", "wide"])},
-            "net": {"latency": rng.choice(["zero", "lan", "slow", "bursty"]), "frag": rng.choice(["whole", "fixed:1", "fixed:7", "random", "coalesce"]),
+            "net": {"latency": rng.choice(["zero", "lan", "slow", "bursty"]), "frag": rng.choice(frag_choices),
                     "hwm": rng.choice([0, 1, 64, 65536])},
             "seed": rng.randrange(1 << 30), "tie_shuffle": rng.random() < 0.5}
 
@@ -141,10 +152,12 @@ def execute_server(scen, sim, viol, probes, facts):
         counter = [0]
         big = 0
 
-        def one_update():
+        def one_update(big_len=0):
             counter[0] += 1
             el = stack.el_obj("D", "TXT", "T0" if counter[0] % 2 else "T1")
-            el.value = f"u{counter[0]}"
+            el.value = f"u{counter[0]}" + ("x" * big_len)
+            if big_len:
+                probes["large_message_routed"] = probes.get("large_message_routed", 0) + 1
 
         for st in scen["steps"]:
             if st["op"] == "gap":
@@ -154,16 +167,16 @@ def execute_server(scen, sim, viol, probes, facts):
                 sim.loop.step_iterations(st["k"])
                 continue
             if st["same_iteration"]:
-                def burst(n=st["n"]):
-                    for _ in range(n):
-                        one_update()
+                def burst(n=st["n"], st=st):
+                    for i in range(n):
+                        one_update(st["big_len"] if st.get("big_at") == i else 0)
                 t0, s0 = sim.loop.time(), sim.loop.steps
                 sim.do(burst)
                 if sim.loop.time() != t0:
                     viol.append({"clause": "C19.isolated", "detail": "routing a burst advanced virtual time (the router waited for I/O)", "facts": facts})
             else:
-                for _ in range(st["n"]):
-                    sim.do(one_update)
+                for i in range(st["n"]):
+                    sim.do(one_update, st["big_len"] if st.get("big_at") == i else 0)
                     sim.loop.step_iterations(st.get("between", 1))
             if st["n"] >= 2:
                 big += 1
